@@ -29,7 +29,10 @@ def ref_duration(s, e):
 
 
 ZONE_DAYS = [("Europe/London", "2024-03-31"), ("Europe/London", "2024-10-27"), ("America/New_York", "2024-03-10"), ("America/New_York", "2024-11-03"),
-             ("Australia/Lord_Howe", "2024-10-06"), ("Australia/Lord_Howe", "2024-04-07"), ("Asia/Kathmandu", "2024-07-15"), ("Pacific/Kiritimati", "2024-12-31")]
+             ("Australia/Lord_Howe", "2024-10-06"), ("Australia/Lord_Howe", "2024-04-07"), ("Asia/Kathmandu", "2024-07-15"), ("Pacific/Kiritimati", "2024-12-31"),
+             # corners of the calendar: leap day, the days around it, year end and start, and beyond 2038
+             ("UTC", "2024-02-29"), ("UTC", "2024-02-28"), ("UTC", "2024-03-01"), ("UTC", "2023-12-31"), ("UTC", "2024-01-01"), ("UTC", "2028-02-29"),
+             ("UTC", "2038-01-19"), ("UTC", "2100-02-28"), ("America/New_York", "2024-02-29")]
 
 
 def jobs(tier, seed):
